@@ -277,6 +277,12 @@ func runC11(c *core.Ctx) {
 	cmds := [][]string{{"csv", "database-resolved"}, {"reg"}, {"bal"}, {"report", "element-total", "x"}, {"report", "totals"}, {"summary", "2021/01/24"},
 		{"report", "element-total", "r01"}, {"report", "element-total", "c01"}, {"report", "unresolved"}, {"bal", "-s", "x"}, {"reg", "-s", "x"}}
 	r := c.Rng("cli", 0)
+	// plus resolving command shapes drawn from the catalogue (reg -f, renderer x presentation flags, ...)
+	for len(cmds) < 40 {
+		if sp := randomCmd(r, "x", "r", "2021/01/24"); sp.Resolves {
+			cmds = append(cmds, sp.Args)
+		}
+	}
 	for n := 1; n <= 6; n++ {
 		for l := n - 1; l <= n+1; l++ {
 			if l < 1 {
@@ -306,6 +312,14 @@ func runC11(c *core.Ctx) {
 	for _, l := range []int{64, 110} {
 		for _, n := range []int{1000, l + 1, l} {
 			cases = append(cases, cli{chainBook(l, nil), n, "flag", cmds[0], fmt.Sprintf("chain %d limit %d via flag", l, n), false})
+		}
+	}
+	// limits and chains far beyond anything a person would type (a cap or a counter width hidden anywhere
+	// between the option and the resolver shows here): 1100, 10050 and 66000 references
+	for li, l := range []int{1100, 10050, 66000} {
+		for ni, n := range []int{l + 1, l, 3 * l} {
+			via := []string{"flag", "env", "config"}[(li+ni)%3]
+			cases = append(cases, cli{chainBook(l, nil), n, via, cmds[(li+ni)%3], fmt.Sprintf("chain %d limit %d via %s", l, n, via), false})
 		}
 	}
 	// a heading declared twice: only the later declaration counts, also when it is empty or carries
